@@ -41,7 +41,16 @@ type Scenario struct {
 		Transient bool `json:"transient,omitempty"`
 	} `json:"write_fail"`
 	WrongKind string `json:"wrong_kind,omitempty"` // wrapper kind used for the wrong-type Scan
+	// RCap / WCap: what the simulated reader and writer offer beyond
+	// io.Reader / io.Writer ("" nothing, "byte" io.ByteReader / io.ByteWriter,
+	// "string" io.StringWriter): a codec may take another path then.
+	RCap string `json:"rcap,omitempty"`
+	WCap string `json:"wcap,omitempty"`
 }
+
+// caps is set by Execute for the helpers of this package (one scenario at a
+// time per process).
+var rcap, wcap string
 
 type prop struct{}
 
@@ -68,9 +77,9 @@ func (prop) Describe() core.Description {
 			"the simulated reader honours the io.Reader contract (0 <= n <= len(p), at most 3 consecutive (0,nil) stalls); the simulated writer honours io.Writer (n < len(p) only together with an error)",
 		},
 		RealComponents: []string{"go-geom root package (constructors, Push, accessors)", "encoding/wkb", "encoding/ewkb", "encoding/wkbcommon", "encoding/wkbhex", "encoding/ewkbhex", "wkb/ewkb database/sql Scanner/Valuer wrappers", "stdlib io, encoding/binary, bytes, encoding/hex"},
-		StubComponents: []string{"io.Writer (simio.Writer: failure offset, short/whole-call, sticky/transient)", "io.Reader (simio.Reader: chunking, stalls, data+EOF, error at offset, truncation)", "database/sql driver (Scan/Value are called directly)"},
+		StubComponents: []string{"io.Writer (simio.Writer: failure offset, short/whole-call, sticky/transient; optionally also io.ByteWriter or io.StringWriter)", "io.Reader (simio.Reader: chunking, stalls, data+EOF, error at offset, truncation; optionally also io.ByteReader)", "database/sql driver (Scan/Value are called directly)"},
 		FaultKinds:     []string{"write-fail-sticky-short", "write-fail-sticky-whole", "write-fail-transient", "read-split", "read-stall", "read-data+eof", "read-error", "read-error-with-data", "read-truncate"},
-		Probes:         []string{"probe:error-inside-count", "probe:split-inside-type-word", "probe:stall-before-byte-order", "probe:srid>=2^31", "probe:xdr+zm+empty-member", "probe:nested-collection", "probe:mixed-layout-collection", "probe:empty-point", "probe:rejected-unsupported-layout", "probe:rejected-empty-point", "probe:concatenated>=2", "probe:enum-capped", "probe:member-srid-round-trip", "probe:result-rechecked-after-later-calls"},
+		Probes:         []string{"probe:error-inside-count", "probe:split-inside-type-word", "probe:stall-before-byte-order", "probe:srid>=2^31", "probe:xdr+zm+empty-member", "probe:nested-collection", "probe:mixed-layout-collection", "probe:empty-point", "probe:rejected-unsupported-layout", "probe:rejected-empty-point", "probe:concatenated>=2", "probe:enum-capped", "probe:member-srid-round-trip", "probe:result-rechecked-after-later-calls", "probe:reader-with-ReadByte", "probe:writer-with-byte", "probe:writer-with-string"},
 	}
 }
 
@@ -83,6 +92,9 @@ func (prop) Decode(raw []byte) (any, error) {
 	}
 	if s.Mode != "enum" && s.Mode != "random" {
 		return nil, fmt.Errorf("bad mode %q", s.Mode)
+	}
+	if (s.RCap != "" && s.RCap != "byte") || (s.WCap != "" && s.WCap != "byte" && s.WCap != "string") {
+		return nil, fmt.Errorf("bad device capabilities")
 	}
 	for _, g := range s.Geoms {
 		if g == nil {
@@ -187,6 +199,8 @@ func (prop) Generate(r *prng.Rand, phase string) any {
 		}
 	}
 	s.WrongKind = wkbadapt.Kinds[r.Intn(len(wkbadapt.Kinds))]
+	s.RCap = []string{"", "", "byte"}[r.Intn(3)]
+	s.WCap = []string{"", "", "byte", "string"}[r.Intn(4)]
 	return s
 }
 
@@ -423,7 +437,14 @@ func (prop) Execute(scAny any, phase string, log *core.Log) core.Result {
 	s := scAny.(*Scenario)
 	var res core.Result
 	lib := wkbadapt.Lib{C: s.Codec}
-	log.Addf("codec %s mode %s geoms %d", s.Codec, s.Mode, len(s.Geoms))
+	rcap, wcap = s.RCap, s.WCap
+	if s.RCap != "" {
+		res.Count("probe:reader-with-ReadByte", 1)
+	}
+	if s.WCap != "" {
+		res.Count("probe:writer-with-"+s.WCap, 1)
+	}
+	log.Addf("codec %s mode %s geoms %d rcap %q wcap %q", s.Codec, s.Mode, len(s.Geoms), s.RCap, s.WCap)
 	var encs []*enc
 	var key strings.Builder
 	key.WriteString(s.Codec.String())
@@ -547,7 +568,7 @@ func probes(res *core.Result, s *Scenario, m *mgeom.Geom, depth int) {
 func oneGeomWrite(res *core.Result, log *core.Log, lib wkbadapt.Lib, s *Scenario, gi int, e *enc, fired *bool) bool {
 	w := simio.NewWriter(simio.WritePlan{FailAt: -1})
 	var err error
-	if p := core.Guard(func() { err = lib.Write(w, e.g) }); p != "" {
+	if p := core.Guard(func() { err = lib.Write(w.With(wcap), e.g) }); p != "" {
 		res.Fail("panic", "panic:write:"+core.PanicSite(p), "Write panicked on %s: %s", e.m, p)
 		return false
 	}
@@ -625,7 +646,7 @@ func oneGeomWrite(res *core.Result, log *core.Log, lib wkbadapt.Lib, s *Scenario
 	try := func(k int, short, transient bool) bool {
 		fw := simio.NewWriter(simio.WritePlan{FailAt: k, Short: short, Transient: transient})
 		var err error
-		if p := core.Guard(func() { err = lib.Write(fw, e.g) }); p != "" {
+		if p := core.Guard(func() { err = lib.Write(fw.With(wcap), e.g) }); p != "" {
 			res.Fail("panic", "panic:write-fail:"+core.PanicSite(p), "Write panicked with writer failing at %d: %s", k, p)
 			return false
 		}
@@ -760,7 +781,7 @@ func readStream(res *core.Result, log *core.Log, lib wkbadapt.Lib, encs []*enc, 
 		cum += len(e.ref)
 		var g geom.T
 		var err error
-		if p := core.Guard(func() { g, err = lib.Read(r) }); p != "" {
+		if p := core.Guard(func() { g, err = lib.Read(r.With(rcap)) }); p != "" {
 			res.Fail("panic", "panic:read:"+core.PanicSite(p), "Read panicked (%s) on geometry %d of stream %x: %s", what, i, stream, p)
 			return false
 		}
